@@ -387,6 +387,11 @@ def check(prop, tier, replay=None):
         return rc
     finally:
         shutil.rmtree(out_dir, ignore_errors=True)
+        if REPO != "/repo":
+            # a self-test build against a scratch worktree: its binary is not needed again (disk space)
+            for race in (False, True):
+                tag = "-" + hashlib.sha1(REPO.encode()).hexdigest()[:8]
+                shutil.rmtree(os.path.join(ROOT, ".build", prop + ("-race" if race else "") + tag), ignore_errors=True)
 
 
 def main():
